@@ -297,6 +297,9 @@ def impl(op, backend):
     except (OverflowError, ValueError):
         pass
     it = iter(iv) if (unit == 3 and amount == 1 and (wa + wb) % 2 == 0) else iv.range(UNITS[unit], amount)
+    if unit == 3 and amount == 1 and (wa + wb) % 2 == 0 and (wa + wb) % 4 == 0:
+        # direct iteration through consumers that ask the interval for a length hint first (list / tuple / unpacking)
+        it = (list(iv), tuple(iv), [*iv])[(wa // 4 + wb) % 3]
     pairs = []
     for x in it:
         pairs.append(_wo(x))
